@@ -173,6 +173,7 @@ func (x *Exec) atReturn(fr *Frame, st *State, rv []Val) {
 	if c.ModSet {
 		x.frameCheckAgainst(st, x.entry, c.Modifies, ev.withState(x.entry), "frame", c.Props)
 	}
+	x.checkPropagation(st, rv, false)
 	// cover: this return is reachable (used for vacuity reporting only)
 	if x.retCount <= 64 {
 		x.obligeX(st, "cover", fmt.Sprintf("cover-return#%d", x.retCount), allProps(c, x.prop), tTrue, "return path reachable", "", false, true)
@@ -190,10 +191,15 @@ func (x *Exec) frameCheckAgainst(st *State, snap *State, items []string, oev *sp
 	}
 	var locs []loc
 	everything := false
+	var allbut []string
+	isAllbut := false
 	for _, it := range items {
 		switch {
 		case it == "everything":
 			everything = true
+		case strings.HasPrefix(it, "allbut "):
+			isAllbut = true
+			allbut = append(allbut, x.frameSet(strings.TrimSpace(strings.TrimPrefix(it, "allbut ")), x.c)...)
 		case strings.HasPrefix(it, "class "):
 			locs = append(locs, loc{prefix: strings.TrimSpace(it[6:]), whole: true})
 		case strings.HasPrefix(it, "owned "):
@@ -234,6 +240,14 @@ func (x *Exec) frameCheckAgainst(st *State, snap *State, items []string, oev *sp
 		}
 		var except []Term
 		whole := false
+		if isAllbut {
+			whole = true
+			for _, pfx := range allbut {
+				if classMatches(class, pfx) {
+					whole = false
+				}
+			}
+		}
 		for _, l := range locs {
 			if !classMatches(class, l.prefix) {
 				continue
@@ -317,4 +331,74 @@ func topConjuncts(t Term) []Term {
 	}
 	flush(len(body))
 	return out
+}
+
+// Error propagation (`propagates f g ...`) is a ghost state machine: $pending holds the first non-nil
+// error a propagating callee returned and that has not been returned yet. No contracted call may be made
+// while an error is pending, and a return must hand back the pending error (as is or wrapped in *Error).
+func (x *Exec) checkPropagation(st *State, rv []Val, backEdge bool) {
+	c := x.c
+	if len(c.Propagates) == 0 || backEdge {
+		return
+	}
+	pend := st.pending
+	if pend.S == "" || pend.S == "inil" {
+		return
+	}
+	if len(rv) == 0 {
+		x.oblige(st, "propagate", "propagate-returned", c.Props, mkEq(pend, tNilI), "a pending error must be returned, but the function has no error result", "")
+		return
+	}
+	ret, ok := rv[len(rv)-1].(Sc)
+	if !ok || ret.T.Sort != sIface {
+		return
+	}
+	wrapped := Term{"false", sBool}
+	if tagErr := x.errorPtrTag(); tagErr != nil {
+		cls := x.classTermSort(st, tagErr.class, arr(sInt, sIface))
+		wrapped = mkAnd(x.hasTag(ret.T, tagErr.typ), mkEq(mkSelect(cls, app(sInt, "iref", ret.T)), pend))
+	}
+	g := mkImplies(mkNot(mkEq(pend, tNilI)), mkOr(mkEq(ret.T, pend), wrapped))
+	x.oblige(st, "propagate", "propagate-returned", c.Props, g, "an error returned by a callee is returned at once (as is, or wrapped in *Error)", "")
+}
+
+// notePropagation is called after every contracted call at depth 0.
+func (x *Exec) propagationBeforeCall(st *State, short string, site int, pos string) {
+	if len(x.c.Propagates) == 0 || st.pending.S == "" || st.pending.S == "inil" {
+		return
+	}
+	x.oblige(st, "propagate", fmt.Sprintf("propagate-stops:%s@%d", short, site), x.c.Props, mkEq(st.pending, tNilI), "nothing is called while an error returned by a callee is pending (errors are returned at once)", pos)
+}
+
+func (x *Exec) propagationAfterCall(st *State, short string, res []Val) {
+	want := false
+	for _, p := range x.c.Propagates {
+		if p == short {
+			want = true
+		}
+	}
+	if !want || len(res) == 0 {
+		return
+	}
+	errV, ok := res[len(res)-1].(Sc)
+	if !ok || errV.T.Sort != sIface {
+		return
+	}
+	if st.pending.S == "" {
+		st.pending = tNilI
+	}
+	st.pending = x.def(st, "pending", mkIte(mkEq(st.pending, tNilI), errV.T, st.pending))
+}
+
+type errTag struct {
+	typ   types.Type
+	class string
+}
+
+func (x *Exec) errorPtrTag() *errTag {
+	t, ok := x.prog.namedType("evaluator.Error")
+	if !ok {
+		return nil
+	}
+	return &errTag{typ: types.NewPointer(t), class: "evaluator.Error.err"}
 }
